@@ -865,5 +865,6 @@ fn main() {
         }
     }
     drop(w);
+    remove_site_cache();
     sink.finish();
 }
